@@ -1633,8 +1633,46 @@ PyObject * matrix_add(PyObject *self, PyObject *other)
   return matrix_add_generic(self, other, 0);
 }
 
+/* self += other (add = 1) or self -= other (add = 0) for a sparse other */
+static PyObject * matrix_iadd_sparse(PyObject *self, PyObject *other, int add)
+{
+  if (SP_NROWS(other) != MAT_NROWS(self) || SP_NCOLS(other) != MAT_NCOLS(self))
+    PY_ERR_TYPE("incompatible dimensions");
+
+  if (SP_ID(other) > MAT_ID(self))
+    PY_ERR_TYPE("invalid inplace operation");
+
+  int_t j, k;
+  for (j=0; j<SP_NCOLS(other); j++)
+    for (k=SP_COL(other)[j]; k<SP_COL(other)[j+1]; k++) {
+      int_t i = SP_ROW(other)[k] + j*MAT_NROWS(self);
+      if (MAT_ID(self) == DOUBLE)
+        MAT_BUFD(self)[i] += (add ? SP_VALD(other)[k] : -SP_VALD(other)[k]);
+#ifndef _MSC_VER
+      else if (SP_ID(other) == DOUBLE)
+        MAT_BUFZ(self)[i] += (add ? SP_VALD(other)[k] : -SP_VALD(other)[k]);
+      else
+        MAT_BUFZ(self)[i] += (add ? SP_VALZ(other)[k] : -SP_VALZ(other)[k]);
+#else
+      else if (SP_ID(other) == DOUBLE)
+        MAT_BUFZ(self)[i] = _Cbuild(creal(MAT_BUFZ(self)[i]) +
+            (add ? SP_VALD(other)[k] : -SP_VALD(other)[k]),
+            cimag(MAT_BUFZ(self)[i]));
+      else
+        MAT_BUFZ(self)[i] = _Cbuild(creal(MAT_BUFZ(self)[i]) +
+            (add ? 1 : -1)*creal(SP_VALZ(other)[k]),
+            cimag(MAT_BUFZ(self)[i]) +
+            (add ? 1 : -1)*cimag(SP_VALZ(other)[k]));
+#endif
+    }
+
+  Py_INCREF(self);
+  return self;
+}
+
 static PyObject * matrix_iadd(PyObject *self,PyObject *other)
 {
+  if (SpMatrix_Check(other)) return matrix_iadd_sparse(self, other, 1);
   return matrix_add_generic(self, other, 1);
 }
 
@@ -1789,6 +1827,7 @@ PyObject * matrix_sub(PyObject *self, PyObject *other)
 
 static PyObject * matrix_isub(PyObject *self,PyObject *other)
 {
+  if (SpMatrix_Check(other)) return matrix_iadd_sparse(self, other, 0);
   return matrix_sub_generic(self, other, 1);
 }
 
